@@ -617,15 +617,30 @@ func (r *scanner) checkCompactRace(ctx context.Context, revision uint64, compact
 	if compact {
 		// compact operation, just try to set the compact revision
 		// if it's error, try next time
-		if val, err := r.store.Get(ctx, r.config.CompactKey); err == nil && len(val) == 8 && binary.BigEndian.Uint64(val) > revision {
-			// a later revision has been compacted already, never move the compact revision backwards
-			return nil
-		}
 		bs := make([]byte, 8)
 		binary.BigEndian.PutUint64(bs, revision)
-		batch := r.store.BeginBatchWrite()
-		batch.Put(r.config.CompactKey, bs, 0)
-		return batch.Commit(ctx)
+		var err error
+		for retry := 0; retry < 3; retry++ {
+			var val []byte
+			val, err = r.store.Get(ctx, r.config.CompactKey)
+			if err == nil && len(val) == 8 && binary.BigEndian.Uint64(val) > revision {
+				// a later revision has been compacted already, never move the compact revision backwards
+				return nil
+			}
+			// write on top of exactly what was read: another compaction may set the record between the read and the write
+			batch := r.store.BeginBatchWrite()
+			if err == nil {
+				batch.CAS(r.config.CompactKey, bs, val, 0)
+			} else if err == storage.ErrKeyNotFound {
+				batch.PutIfNotExist(r.config.CompactKey, bs, 0)
+			} else {
+				return err
+			}
+			if err = batch.Commit(ctx); !errors.Is(err, storage.ErrCASFailed) {
+				return err
+			}
+		}
+		return err
 	}
 
 	// if scan is triggered by range and range stream, check compact race
